@@ -214,11 +214,39 @@ class ScriptLayer(layer.Layer):
         env.rec("evend", me)
 
 
+class Addons:
+    """stands in for master.addons: a hook handler that takes as long as the script says and kills what it says"""
+    def __init__(self, env): self.env = env
+
+    async def handle_lifecycle(self, hook):
+        env = self.env; me = env.me()
+        name = HOOKN.get(hook.name, hook.name)
+        (data,) = hook.args()
+        if name in ("cc", "cd"): cl = "c"
+        elif name == "hk": cl = "-"
+        else: cl = env.conn_label.get(data.server, "?")
+        slow = env.case.get("slow", [])
+        if name in slow or f"{name}:{cl}" in slow or "*" in slow:
+            fut = asyncio.get_running_loop().create_future()
+            env.gates.append([me, name, fut])
+            await fut
+        if name == "cc" and env.case.get("kill_client"):
+            data.error = "killed"
+        if name == "sc" and cl in env.case.get("kill_server", []):
+            data.server.error = "killed"
+
+
+class Master:
+    def __init__(self, env): self.addons = Addons(env)
+
+
 def make_handler_class(base):
     class RecHandler(base):
         env: Env
 
         async def handle_hook(self, hook):
+            # the production handle_hook (ProxyConnectionHandler: disarm the idle watchdog, run the addons) with the
+            # addon manager replaced by Addons below; recorded: the hook fires / returns / is cancelled
             env = self.env; me = env.me()
             name = HOOKN.get(hook.name, hook.name)
             (data,) = hook.args()
@@ -226,20 +254,12 @@ def make_handler_class(base):
             elif name == "hk": cl = "-"
             else: cl = env.conn_label.get(data.server, "?")
             env.rec("hook", me, name, cl)
-            n = env.hooknum; env.hooknum += 1
-            slow = env.case.get("slow", [])
-            if name in slow or f"{name}:{cl}" in slow or "*" in slow:
-                fut = asyncio.get_running_loop().create_future()
-                env.gates.append([me, name, fut])
-                try:
-                    await fut
-                except asyncio.CancelledError:
-                    env.rec("hookret", me, name, "cancel", 0); raise
+            try:
+                await super().handle_hook(hook)
+            except asyncio.CancelledError:
+                env.rec("hookret", me, name, "cancel", 0); raise
             kill = 0
-            if name == "cc" and env.case.get("kill_client"):
-                self.client.error = "killed"; kill = 1
-            if name == "sc" and cl in env.case.get("kill_server", []):
-                data.server.error = "killed"
+            if name == "cc" and self.client.error: kill = 1
             if name == "sc" and data.server.error:     # open_connection's test: also an error left by an earlier attempt
                 kill = 1
             env.rec("hookret", me, name, "ok", kill)
@@ -318,8 +338,9 @@ def run(case):
         creader = MemReader(env, "c")
         cwriter = MemWriter(env, "c", None, ("192.0.2.1", 51234), ("127.0.0.1", 8080))
         env.readers["c"] = creader; env.writers["c"] = cwriter
-        H = make_handler_class(server.LiveConnectionHandler)
-        h = H(creader, cwriter, make_opts(timeout), mode_specs.ProxyMode.parse("regular"))
+        from mitmproxy.proxy import mode_servers
+        H = make_handler_class(mode_servers.ProxyConnectionHandler)
+        h = H(Master(env), creader, cwriter, make_opts(timeout), mode_specs.ProxyMode.parse("regular"))
         h.env = env; env.handler = h
         env.conn_label[h.client] = "c"
         size = h.max_conns[("probe", 1)]._value
